@@ -1,0 +1,98 @@
+//go:build verif
+
+package pdf
+
+import (
+	"bytes"
+	"io"
+	"sort"
+
+	"github.com/xdg-go/stringprep"
+	"golang.org/x/text/language"
+	"seehuhn.de/go/xmp"
+)
+
+// Accessors for the verification harnesses of properties C09 and C10
+// (/verif/harness/c09, /verif/harness/c10).  Add-only; compiled with the build
+// tag "verif" only.  No function here contains parsing or cryptographic logic
+// of its own: each one exposes an unexported value or calls the unexported
+// function named in its comment.
+
+// VerifReaderFileKey returns the file encryption key recovered when the
+// reader authenticated (stdSecHandler.key), or nil for an unencrypted file.
+func VerifReaderFileKey(r *Reader) []byte {
+	if r.enc == nil || r.enc.sec == nil {
+		return nil
+	}
+	return bytes.Clone(r.enc.sec.key)
+}
+
+// VerifWriterFileKey returns the file encryption key of a writer.
+func VerifWriterFileKey(w *Writer) []byte {
+	if w.w.enc == nil || w.w.enc.sec == nil {
+		return nil
+	}
+	return bytes.Clone(w.w.enc.sec.key)
+}
+
+// VerifRefs lists the references of all objects in use, in increasing order
+// of object number, together with the object stream holding each (0 if none).
+func VerifRefs(r *Reader) (refs []Reference, inStream []Reference) {
+	nums := make([]uint32, 0, len(r.xref))
+	for n, e := range r.xref {
+		if n == 0 || e.IsFree() {
+			continue
+		}
+		nums = append(nums, n)
+	}
+	sort.Slice(nums, func(i, j int) bool { return nums[i] < nums[j] })
+	for _, n := range nums {
+		e := r.xref[n]
+		refs = append(refs, NewReference(n, e.Generation))
+		inStream = append(inStream, e.InStream)
+	}
+	return refs, inStream
+}
+
+// VerifRawObject reads an indirect object with the real parser but with
+// decryption switched off: strings and stream data are returned as they are
+// stored in the file.  Objects inside object streams cannot be read this way.
+func VerifRawObject(r *Reader, ref Reference) (Native, error) {
+	rr := *r
+	rr.enc = nil
+	return rr.Get(ref, false)
+}
+
+// VerifDecryptBytes calls encryptInfo.DecryptBytes on a copy of raw.
+func VerifDecryptBytes(r *Reader, ref Reference, raw []byte) ([]byte, error) {
+	return r.enc.DecryptBytes(ref, bytes.Clone(raw))
+}
+
+// VerifDecryptStream calls encryptInfo.DecryptStream.
+func VerifDecryptStream(r *Reader, ref Reference, raw io.Reader) (io.Reader, error) {
+	return r.enc.DecryptStream(ref, raw)
+}
+
+// VerifUnpadPKCS7 calls unpadPKCS7 on a copy of buf.
+func VerifUnpadPKCS7(buf []byte) ([]byte, error) {
+	return unpadPKCS7(bytes.Clone(buf))
+}
+
+// VerifSASLprep applies the SASLprep profile used by utf8Passwd (without the
+// truncation to 127 bytes).
+func VerifSASLprep(s string) (string, bool) {
+	p, err := stringprep.SASLprep.Prepare(s)
+	return p, err == nil
+}
+
+// VerifNewMetadata builds a document metadata stream whose title is the
+// given string.
+func VerifNewMetadata(title string, plaintext bool) (*MetadataStream, error) {
+	packet := xmp.NewPacket()
+	dc := &xmp.DublinCore{}
+	dc.Title.Set(language.Und, title)
+	if err := packet.Set(dc); err != nil {
+		return nil, err
+	}
+	return &MetadataStream{Data: packet, Plaintext: plaintext}, nil
+}
